@@ -51,6 +51,9 @@ type c09Fix struct {
 	lend     bool   // lend fixture present (generation 2 only)
 	lendCol  uint64 // collateral asset of the same-pool borrows (LA)
 	lendCol2 uint64 // collateral asset of the cross-pool borrows (LB)
+	lendIDs  []uint64    // lend positions referenced by the borrows of the last pre-state
+	tlKeys   [][2]uint64 // (pool, asset) whose TotalLend / TotalBorrowed the last pre-state printed
+	tbKeys   [][2]uint64
 	poolMod  string // lend pool module name
 }
 
@@ -317,7 +320,7 @@ func (f *c09Fix) envLine() {
 	eps, _ := f.app.AssetKeeper.GetPairsVaults(f.ctx)
 	for _, ep := range eps {
 		pair, _ := f.app.AssetKeeper.GetPair(f.ctx, ep.PairId)
-		ps = append(ps, strings.Join([]string{u(ep.Id), u(ep.AppId), ep.MinCr.BigInt().String(), u(pair.AssetIn), u(pair.AssetOut), b01(ep.AssetOutOraclePrice), u(ep.AssetOutPrice)}, ":"))
+		ps = append(ps, strings.Join([]string{u(ep.Id), u(ep.AppId), ep.MinCr.BigInt().String(), u(pair.AssetIn), u(pair.AssetOut), b01(ep.AssetOutOraclePrice), u(ep.AssetOutPrice), ep.LiquidationPenalty.BigInt().String()}, ":"))
 	}
 	v1wl := map[uint64]bool{}
 	for _, a := range f.app.LiquidationKeeper.GetAppIdsForLiquidation(f.ctx) {
@@ -392,6 +395,10 @@ type c09Borrow struct {
 	lt, elt, ltT1, ltT2    sdk.Dec
 	app, pool              uint64
 	missing                bool
+	principal              sdk.Int
+	interestPre, interestPost sdk.Dec
+	pen, bon               sdk.Dec
+	cAsset, lendID, outPool uint64
 }
 
 func (f *c09Fix) borrowRecords() []c09Borrow {
@@ -408,13 +415,16 @@ func (f *c09Fix) borrowRecords() []c09Borrow {
 		pool, _ := f.app.LendKeeper.GetPool(f.ctx, lp.PoolID)
 		cctx, _ := f.ctx.CacheContext()
 		debt := bp.AmountOut.Amount.Add(bp.InterestAccumulated.TruncateInt())
+		ipost := bp.InterestAccumulated
 		if !bp.IsLiquidated {
 			if acc, err := f.app.LendKeeper.CalculateBorrowInterestForLiquidation(cctx, id); err == nil {
 				debt = acc.AmountOut.Amount.Add(acc.InterestAccumulated.TruncateInt())
+				ipost = acc.InterestAccumulated
 			}
 		}
 		r := c09Borrow{id: id, liquidated: bp.IsLiquidated, amountIn: bp.AmountIn.Amount, debt: debt, assetIn: pair.AssetIn, assetOut: pair.AssetOut,
-			bridged: bp.BridgedAssetAmount.Amount, emode: pair.IsEModeEnabled, app: lp.AppID, pool: lp.PoolID}
+			bridged: bp.BridgedAssetAmount.Amount, emode: pair.IsEModeEnabled, app: lp.AppID, pool: lp.PoolID,
+			principal: bp.AmountOut.Amount, interestPre: bp.InterestAccumulated, interestPost: ipost, lendID: bp.LendingID, outPool: pair.AssetOutPoolID}
 		for _, d := range pool.AssetData {
 			if d.AssetTransitType == 2 {
 				r.t1 = d.AssetID
@@ -438,6 +448,7 @@ func (f *c09Fix) borrowRecords() []c09Borrow {
 			return d
 		}
 		r.lt, r.elt, r.ltT1, r.ltT2 = nz(rp.LiquidationThreshold), nz(rp.ELiquidationThreshold), nz(r1.LiquidationThreshold), nz(r2.LiquidationThreshold)
+		r.pen, r.bon, r.cAsset = nz(rp.LiquidationPenalty), nz(rp.LiquidationBonus), rp.CAssetID
 		out = append(out, r)
 	}
 	return out
@@ -459,8 +470,9 @@ func (f *c09Fix) borrowsField() string {
 			parts = append(parts, u(r.id)+":missing")
 			continue
 		}
-		parts = append(parts, strings.Join([]string{u(r.id), u(r.app), u(r.pool), u(r.assetIn), u(r.assetOut), r.amountIn.String(), r.debt.String(),
-			r.bridged.String(), u(r.bridgedAsset), u(r.t1), u(r.t2), b01(r.liquidated), b01(r.emode), raw(r.lt), raw(r.elt), raw(r.ltT1), raw(r.ltT2)}, ":"))
+		parts = append(parts, strings.Join([]string{u(r.id), u(r.app), u(r.pool), u(r.assetIn), u(r.assetOut), r.amountIn.String(), r.principal.String(), raw(r.interestPost),
+			r.bridged.String(), u(r.bridgedAsset), u(r.t1), u(r.t2), b01(r.liquidated), b01(r.emode), raw(r.lt), raw(r.elt), raw(r.ltT1), raw(r.ltT2),
+			raw(r.pen), raw(r.bon), u(r.cAsset), u(r.lendID), u(r.outPool)}, ":"))
 	}
 	return strings.Join(parts, ";")
 }
@@ -526,7 +538,7 @@ func (f *c09Fix) borrowStats(before bool, judged map[uint64]string) map[uint64]s
 func (f *c09Fix) pre() []string {
 	var vs []string
 	for _, v := range f.app.VaultKeeper.GetVaults(f.ctx) {
-		vs = append(vs, strings.Join([]string{u(v.Id), u(v.AppId), u(v.ExtendedPairVaultID), v.AmountIn.String(), v.AmountOut.String(), v.InterestAccumulated.String(), v.ClosingFeeAccumulated.String()}, ":"))
+		vs = append(vs, strings.Join([]string{u(v.Id), u(v.AppId), u(v.ExtendedPairVaultID), v.AmountIn.String(), v.AmountOut.String(), v.InterestAccumulated.String(), v.ClosingFeeAccumulated.String(), f.intPost(v).String()}, ":"))
 	}
 	lid, aid := f.ids()
 	out := []string{"V=" + strings.Join(vs, ";"), "C=" + u(f.app.VaultKeeper.GetLengthOfVault(f.ctx)), "O=" + f.offsets(),
@@ -536,7 +548,79 @@ func (f *c09Fix) pre() []string {
 		pb = c09Bal(f, f.poolMod)
 	}
 	out = append(out, "PB="+pb, "B="+f.borrowsField())
-	return out
+	// lend positions and pool totals the borrows refer to (the same keys are printed again in the post-state)
+	f.lendIDs, f.tlKeys, f.tbKeys = nil, nil, nil
+	if f.lend {
+		seenL, seenT, seenB := map[uint64]bool{}, map[[2]uint64]bool{}, map[[2]uint64]bool{}
+		for _, r := range f.borrowRecords() {
+			if r.missing {
+				continue
+			}
+			if !seenL[r.lendID] {
+				seenL[r.lendID] = true
+				f.lendIDs = append(f.lendIDs, r.lendID)
+			}
+			if k := [2]uint64{r.pool, r.assetIn}; !seenT[k] {
+				seenT[k] = true
+				f.tlKeys = append(f.tlKeys, k)
+			}
+			if k := [2]uint64{r.outPool, r.assetOut}; !seenB[k] {
+				seenB[k] = true
+				f.tbKeys = append(f.tbKeys, k)
+			}
+		}
+	}
+	return append(out, f.lendFields()...)
+}
+
+// interest on the record after the accrual a seizure would book first (rewards.CalculateVaultInterest uses float
+// arithmetic: external value, obtained from the real keeper on a throw-away branch)
+func (f *c09Fix) intPost(v vaulttypes.Vault) sdk.Int {
+	cctx, _ := f.ctx.CacheContext()
+	var err error
+	p, _ := try(func() {
+		err = f.app.Rewardskeeper.CalculateVaultInterest(cctx, v.AppId, v.ExtendedPairVaultID, v.Id, v.AmountOut.Add(v.InterestAccumulated), v.BlockHeight, v.BlockTime.Unix())
+	})
+	if p || err != nil {
+		return v.InterestAccumulated
+	}
+	if nv, ok := f.app.VaultKeeper.GetVault(cctx, v.Id); ok {
+		return nv.InterestAccumulated
+	}
+	return v.InterestAccumulated
+}
+
+func (f *c09Fix) lendFields() []string {
+	var ls, tl, tb, pt []string
+	for _, id := range f.lendIDs {
+		if lp, ok := f.app.LendKeeper.GetLend(f.ctx, id); ok {
+			ls = append(ls, u(id)+":"+lp.AmountIn.Amount.String())
+		}
+	}
+	key := func(k [2]uint64) string { return u(k[0]<<32 + k[1]) }
+	for _, k := range f.tlKeys {
+		st, _ := f.app.LendKeeper.GetAssetStatsByPoolIDAndAssetID(f.ctx, k[0], k[1])
+		x := st.TotalLend
+		if x.IsNil() {
+			x = sdk.ZeroInt()
+		}
+		tl = append(tl, key(k)+":"+x.String())
+	}
+	for _, k := range f.tbKeys {
+		st, _ := f.app.LendKeeper.GetAssetStatsByPoolIDAndAssetID(f.ctx, k[0], k[1])
+		x := st.TotalBorrowed
+		if x.IsNil() {
+			x = sdk.ZeroInt()
+		}
+		tb = append(tb, key(k)+":"+x.String())
+	}
+	eps, _ := f.app.AssetKeeper.GetPairsVaults(f.ctx)
+	for _, ep := range eps {
+		if d, ok := f.app.VaultKeeper.GetAppExtendedPairVaultMappingData(f.ctx, ep.AppId, ep.Id); ok {
+			pt = append(pt, u(ep.Id)+":"+d.TokenMintedAmount.String()+":"+d.CollateralLockedAmount.String())
+		}
+	}
+	return []string{"LS=" + strings.Join(ls, ";"), "TL=" + strings.Join(tl, ";"), "TB=" + strings.Join(tb, ";"), "PT=" + strings.Join(pt, ";")}
 }
 
 func (f *c09Fix) post(preLid, preAid uint64) []string {
@@ -549,25 +633,34 @@ func (f *c09Fix) post(preLid, preAid uint64) []string {
 	if f.gen == 2 {
 		for _, l := range f.app.NewliqKeeper.GetLockedVaults(f.ctx) {
 			if l.LockedVaultId > preLid {
-				nl = append(nl, strings.Join([]string{u(l.LockedVaultId), u(l.OriginalVaultId), u(l.AppId), l.CollateralToken.Amount.String(), b01(l.InitiatorType == "lend")}, ":"))
+				nl = append(nl, strings.Join([]string{u(l.LockedVaultId), u(l.OriginalVaultId), u(l.AppId), l.CollateralToken.Amount.String(), b01(l.InitiatorType == "lend"),
+					l.DebtToken.Amount.String(), l.TargetDebt.Amount.String(), l.FeeToBeCollected.String(), l.BonusToBeGiven.String(),
+					l.CurrentCollaterlisationRatio.BigInt().String(), l.CollateralToBeAuctioned.Amount.String()}, ":"))
 			}
 		}
 		for _, a := range f.app.NewaucKeeper.GetAuctions(f.ctx) {
 			if a.AuctionId > preAid {
-				na = append(na, strings.Join([]string{u(a.AuctionId), u(a.LockedVaultId), u(a.CollateralAssetId), a.CollateralToken.Amount.String()}, ":"))
+				na = append(na, strings.Join([]string{u(a.AuctionId), u(a.LockedVaultId), u(a.CollateralAssetId), a.CollateralToken.Amount.String(), a.DebtToken.Amount.String()}, ":"))
 			}
 		}
 	} else {
-		for _, l := range f.app.LiquidationKeeper.GetLockedVaults(f.ctx) {
-			if l.LockedVaultId > preLid {
-				nl = append(nl, strings.Join([]string{u(l.LockedVaultId), u(l.OriginalVaultId), u(l.AppId), l.AmountIn.String(), b01(l.Kind != nil)}, ":"))
-			}
-		}
+		target := map[uint64]string{} // locked vault id -> inflow target of its auction (the locked vault itself does not carry it)
 		for _, appID := range f.apps {
 			for _, a := range f.app.AuctionKeeper.GetDutchAuctions(f.ctx, appID) {
 				if a.AuctionId > preAid {
-					na = append(na, strings.Join([]string{u(a.AuctionId), u(a.LockedVaultId), u(a.AssetOutId), a.OutflowTokenInitAmount.Amount.String()}, ":"))
+					na = append(na, strings.Join([]string{u(a.AuctionId), u(a.LockedVaultId), u(a.AssetOutId), a.OutflowTokenInitAmount.Amount.String(), a.InflowTokenTargetAmount.Amount.String()}, ":"))
+					target[a.LockedVaultId] = a.InflowTokenTargetAmount.Amount.String()
 				}
+			}
+		}
+		for _, l := range f.app.LiquidationKeeper.GetLockedVaults(f.ctx) {
+			if l.LockedVaultId > preLid {
+				tg := target[l.LockedVaultId]
+				if tg == "" {
+					tg = "-1"
+				}
+				nl = append(nl, strings.Join([]string{u(l.LockedVaultId), u(l.OriginalVaultId), u(l.AppId), l.AmountIn.String(), b01(l.Kind != nil),
+					l.AmountOut.String(), tg, l.InterestAccumulated.String(), "0", l.CrAtLiquidation.BigInt().String(), l.CollateralToBeAuctioned.BigInt().String()}, ":"))
 			}
 		}
 	}
@@ -587,9 +680,9 @@ func (f *c09Fix) post(preLid, preAid uint64) []string {
 	if f.lend {
 		pb = c09Bal(f, f.poolMod)
 	}
-	return []string{"V=" + strings.Join(vs, ","), "C=" + u(f.app.VaultKeeper.GetLengthOfVault(f.ctx)), "O=" + f.offsets(),
+	return append([]string{"V=" + strings.Join(vs, ","), "C=" + u(f.app.VaultKeeper.GetLengthOfVault(f.ctx)), "O=" + f.offsets(),
 		"VB=" + c09Bal(f, vaulttypes.ModuleName), "AB=" + c09Bal(f, f.auctionModule()), "LID=" + u(lid), "AID=" + u(aid),
-		"NL=" + strings.Join(nl, ";"), "NA=" + strings.Join(na, ";"), "PB=" + pb, "BL=" + strings.Join(bl, ",")}
+		"NL=" + strings.Join(nl, ";"), "NA=" + strings.Join(na, ";"), "PB=" + pb, "BL=" + strings.Join(bl, ",")}, f.lendFields()...)
 }
 
 // one block: the REAL BeginBlocker of the generation under test, on the live context (a panic is an outcome)
@@ -1024,7 +1117,7 @@ func c09LendFixture(f *c09Fix) {
 	}
 	la, lb, lc, ld := mk("LENDA", 2000000), mk("LENDB", 2000000), mk("LENDC", 1000000), mk("LENDD", 1500000)
 	ca, cb, cc, cd := mk("CLENDA", 1000000), mk("CLENDB", 2000000), mk("CLENDC", 2000000), mk("CLENDD", 2000000)
-	f.assets = append(f.assets, la, lb, lc, ld)
+	f.assets = append(f.assets, la, lb, lc, ld, ca, cb) // cTokens too: they are burnt from the pool account at hand-over
 	d := sdk.MustNewDecFromStr
 	must := func(err error) {
 		if err != nil {
